@@ -103,9 +103,11 @@ def _consistency(spec, ctx):
     ok2, m2 = ctx.call(select_copula, X0.copy())
     ctx.check(ok2 and type(m2) is type(m) and m2.theta == m.theta and m2.tau == m.tau, 'select.deterministic',
               'C11:nondeterministic', lambda: dict(where, a=[fam, m.theta], b=[repr(m2)[:60], getattr(m2, 'theta', None)]))
-    ok3, m3 = ctx.call(Bivariate.select_copula, X0.copy())
+    Xa = c10._flavoured(X0.copy(), spec.get('flavour', 'plain'))     # the alias sees the same kind of array (read-only, F-ordered, ...)
+    ok3, m3 = ctx.call(Bivariate.select_copula, Xa)
     ctx.check(ok3 and type(m3) is type(m) and m3.theta == m.theta, 'select.alias', 'C11:alias-differs',
-              lambda: dict(where, a=[fam, m.theta], b=[repr(m3)[:60], getattr(m3, 'theta', None)]))
+              lambda: dict(where, a=[fam, m.theta], b=[repr(m3)[:60], getattr(m3, 'theta', None)], flavour=spec.get('flavour')))
+    ctx.check(np.array_equal(Xa, X0), 'select.input-unchanged', 'C11:input-modified-by-alias', where)
     # the returned model is the caller's: a later call on other data must not change it
     snap = (type(m), m.theta, m.tau)
     rng2 = rng_for(spec['seed'], 'other')
